@@ -113,7 +113,15 @@ pub fn fq_err(e: seq_io::fastq::Error) -> ErrObs {
 
 pub fn fa_rec(r: &seq_io::fasta::RefRecord) -> RecObs {
     use seq_io::fasta::Record;
-    let lines: Vec<Vec<u8>> = r.seq_lines().map(|l| l.to_vec()).collect();
+    let mut lines: Vec<Vec<u8>> = r.seq_lines().map(|l| l.to_vec()).collect();
+    // the same lines taken from the back: a disagreement becomes part of the observation, so that
+    // every comparison with the reference (or with another configuration / line ending) sees it
+    let mut back: Vec<&[u8]> = r.seq_lines().rev().collect();
+    back.reverse();
+    if back.len() != lines.len() || back.iter().zip(&lines).any(|(a, b)| *a != &b[..]) {
+        let shown: Vec<String> = back.iter().map(|l| String::from_utf8_lossy(l).into_owned()).collect();
+        lines.push(format!("<seq_lines().rev() yields {:?}>", shown).into_bytes());
+    }
     RecObs {
         head: r.head().to_vec(),
         seq: lines.iter().flatten().cloned().collect(),
